@@ -54,7 +54,7 @@ def run_one(prop: str, run_seed: int, tier: str, ops=None, cfg=None, want_log=Fa
     generated = ops is None
     if generated:
         cfg, ops = prof.gen(run_seed, tier, idx)
-    faulthandler.dump_traceback_later(RUN_WALL_CAP, exit=True)
+    faulthandler.dump_traceback_later((cfg or {}).get("wall_cap", RUN_WALL_CAP), exit=True)
     world = World(run_seed)
     res = {"seed": run_seed, "prop": prop, "nops": len(ops), "violation": None, "error": None}
     sim = None
